@@ -232,7 +232,7 @@ def build(ctx):
                 ctx.prop('track_errors/%s/p%d/no-panic' % (kname, i), o.state.pc, z3.BoolVal(True), [], None, twin=False)
                 continue
             after = eng.read_ref(o.state, cell).items[0].items[1].items
-            ctx.prop('track_errors/%s/p%d/sets-operational-error' % (kname, i), o.state.pc, z3.Not(after[op_idx]), flags, None)
+            ctx.prop('track_errors/%s/p%d/sets-operational-error' % (kname, i), o.state.pc, z3.Not(after[op_idx]), flags, replay_exit_status)
 
     validate(ctx, eng, names, fi, ef, rp, kidx, LO, TW, sel)
 
@@ -273,7 +273,7 @@ def spec_lines(text, events, max_width, tab_spaces, eou, eol, skipped, selected)
 def make_replay(ctx, rp, what):
     def replay(model, r):
         W = min(model.get('W', 0), 200)
-        L = max(1, min(model.get('L', 1), 30))
+        L = max(2, min(model.get('L', 2), 30))      # line 1 is special-cased by FormatLines::new; use an interior line
         mw = model.get('mw', model.get('cfg.max_width', 20))
         mwk = [k for k in model if k.endswith('max_width')]
         tsk = [k for k in model if k.endswith('tab_spaces')]
@@ -304,14 +304,15 @@ def make_replay(ctx, rp, what):
                         elif variant == 'blockcomment-blank':
                             body = '/*' + 'a' * max(0, width - 3) + ' \n*/'
                         text = '\n' * (L - 1) + body + '\nx\n'
-                        for skipped, fl in (([], None), ([(L, L)], None), ([], '[{"file":"stdin","range":[%d,%d]}]' % (L + 1, L + 5))):
+                        sels = [(L + 1, L + 5), (L, L), (L, L + 1), (max(1, L - 1), max(1, L - 1)), (L + 1, L + 1)]
+                        for skipped, fl in [([], None), ([(L, L)], None)] + [([], (a_, b_)) for (a_, b_) in sels]:
                             req = {'op': 'format_lines_scan', 'text': text, 'max_width': mw, 'tab_spaces': ts, 'error_on_unformatted': eou,
                                    'error_on_line_overflow': eol, 'skipped': skipped}
                             if fl:
-                                req['file_lines'] = fl
+                                req['file_lines'] = '[{"file":"stdin","range":[%d,%d]}]' % fl
                             res = rp.call(req)
                             tried += 1
-                            selected = (lambda n: True) if not fl else (lambda n, a=L + 1, b=L + 5: a <= n <= b)
+                            selected = (lambda n: True) if not fl else (lambda n, a=fl[0], b=fl[1]: a <= n <= b)
                             mtw, mlo = spec_lines(text, res['events'], mw, ts, eou, eol, skipped, selected)
                             got_tw = [e[0] for e in res['errors'] if e[1] == 1]
                             got_lo = [e[0] for e in res['errors'] if e[1] == 0]
@@ -322,6 +323,28 @@ def make_replay(ctx, rp, what):
                                     return {'reproduced': True, 'detail': findings, 'texts_tried': tried}
         return {'reproduced': bool(findings), 'detail': findings, 'texts_tried': tried}
     return replay
+
+
+def replay_exit_status(model, r):
+    """a trailing blank / too wide line left in the emitted text must make the run exit 1, whatever else was reported before"""
+    bins = ensure_bins()
+    rf = os.path.join(bins, 'rustfmt')
+    d = os.path.join(BUILD, 'scratch', 'c07x-%d' % os.getpid())
+    shutil.rmtree(d, ignore_errors=True)
+    os.makedirs(d)
+    open(os.path.join(d, 'empty.toml'), 'w').write('')
+    long_ = 'a' * 50
+    body = 'fn b() {\n    let y = %s(1,   \n        2);\n}\n' % long_
+    findings = []
+    for name, pre in (('control', ''), ('deprecated-attr-first', '#[rustfmt_skip]\nfn a() {}\n\n'), ('bad-attr-first', '#[rustfmt::unknown]\nfn a() {}\n\n')):
+        p = os.path.join(d, name + '.rs')
+        open(p, 'w').write(pre + body)
+        pr = subprocess.run([rf, '--config-path', os.path.join(d, 'empty.toml'), '--emit', 'stdout', '--config', 'max_width=40', p], capture_output=True, text=True, env=run_env(), timeout=60)
+        left = any(ln.endswith(' ') for ln in pr.stdout.split('\n'))
+        if left and pr.returncode != 1:
+            findings.append('%s: emitted text has a line ending in a blank but the exit status is %d' % (name, pr.returncode))
+    shutil.rmtree(d, ignore_errors=True)
+    return {'reproduced': bool(findings), 'detail': findings}
 
 
 def validate(ctx, eng, names, fi, ef, rp, kidx, LO, TW, sel):
